@@ -115,6 +115,15 @@ def keep(pid, n):
         "what_was_run": "scratch worktree of /repo HEAD: git apply patch.diff; go build ./...; go test -vet=off -count=1 ./... (all ok); demo copied to demo_where and demo_cmd run (fails); git apply -R; demo_cmd run again (passes); worktree removed",
         "detection": [{k: r[k] for k in ("check", "tier", "detected", "exit", "wall_s")} | {"violation_keys": r.get("keys", [])[:6]} for r in det],
     }
+    try:  # keep hand-written fields of an existing meta.json
+        old = json.load(open(f"{d}/meta.json"))
+        for k in ("note", "not_demanded", "needs"):
+            if k in old:
+                meta[k] = old[k]
+    except Exception:
+        pass
+    if not meta["description"] and "old" in dir() and isinstance(old, dict):
+        meta["description"] = old.get("description", "")
     json.dump(meta, open(f"{d}/meta.json", "w"), indent=1)
     print("kept", d)
 
